@@ -18,6 +18,14 @@ from .core import AnalysisError
 from .srcmodel import ClassInfo, FuncInfo, SrcModel
 
 
+class SymbolicBranch(AnalysisError):
+    """a data-dependent branch that is neither a refusal nor an early return"""
+
+    def __init__(self, node, src):
+        super().__init__(f"[ALG] line {node.lineno}: branch on symbolic condition `{src}` outside the fragment")
+        self.node, self.src = node, src
+
+
 class Quad:
     """scipy.integrate.quad(f, lo, hi)[i]"""
 
@@ -48,6 +56,17 @@ class Closure:
         return self.tr.body(self.node.body, env, self.self_ctx)
 
 
+class ArraySym:
+    """a symbolic 1-d array: element j is the term name(j)"""
+
+    def __init__(self, name):
+        self.name = name
+        self.fn = sp.Function(name, positive=True)
+
+    def __getitem__(self, idx):
+        return self.fn(idx)
+
+
 class Attr:
     """symbolic record (e.g. an optimiser result): attribute access yields named symbols"""
 
@@ -58,10 +77,11 @@ class Attr:
 class SelfCtx:
     """how `self.<x>` is resolved: parameter symbols, attribute symbols, class for method inlining"""
 
-    def __init__(self, cls: ClassInfo, params=None, attrs=None):
+    def __init__(self, cls: ClassInfo, params=None, attrs=None, stubs=None):
         self.cls = cls
         self.params = params or {}
         self.attrs = attrs or {}
+        self.stubs = stubs or {}        # method name -> callable(args, kwargs) replacing inlining
 
 
 NUMPY_FUNCS = {
@@ -125,6 +145,8 @@ class Translator:
         for p in params[len(args):]:
             if p in defaults:
                 env[p] = self.expr(defaults[p], env, ctx)
+        if self.depth == 0:
+            self.last_env = env
         return self.body(fi.node.body, env, ctx)
 
     def function(self, fi: FuncInfo, args, kwargs=None):
@@ -142,6 +164,8 @@ class Translator:
                 env[p] = kwargs[p]
             elif p in defaults:
                 env[p] = self.expr(defaults[p], env, None)
+        if self.depth == 0:
+            self.last_env = env
         return self.body(fi.node.body, env, None)
 
     # ---- statements ------------------------------------------------------------------------------------
@@ -189,7 +213,31 @@ class Translator:
                     if all(isinstance(x, ast.Raise) for x in st.body) and not st.orelse:
                         guard.append((t, "raise"))
                         continue
-                    self.err(st, f"branch on symbolic condition `{src}` outside the fragment")
+                    if st.body and isinstance(st.body[-1], ast.Return) and not st.orelse:
+                        e3 = dict(env)
+                        val = self.body(st.body, e3, ctx)
+                        env.setdefault("__early_returns__", []).append((t, val))
+                        continue
+                    raise SymbolicBranch(st, src)
+            elif isinstance(st, ast.For):
+                it = st.iter
+                if not (isinstance(it, ast.Call) and isinstance(it.func, ast.Name) and it.func.id == "range" and isinstance(st.target, ast.Name)):
+                    self.err(st, "for loop outside the stencil fragment (only `for i in range(...)`)")
+                bounds = [self.expr(a, env, ctx) for a in it.args]
+                i = self.sym(st.target.id + "_loop", integer=True, nonnegative=True)
+                carried = sorted({t.target.id for t in ast.walk(st) if isinstance(t, ast.AugAssign) and isinstance(t.target, ast.Name)})
+                e2 = dict(env)
+                e2[st.target.id] = i
+                ins = {}
+                for c in carried:
+                    ins[c] = self.sym(f"{c}_in", real=True)
+                    e2[c] = ins[c]
+                self.block(st.body, e2, ctx)
+                rec = {"var": i, "range": bounds, "increments": {c: sp.simplify(e2[c] - ins[c]) for c in carried},
+                       "locals": {k: v for k, v in e2.items() if isinstance(v, sp.Basic) and k not in env}}
+                env.setdefault("__loops__", []).append(rec)
+                for c in carried:
+                    env[c] = env[c] + self.sym(f"{c}_loopsum", real=True)
             elif isinstance(st, ast.FunctionDef):
                 env[st.name] = Closure(st, env, self, ctx)
             elif isinstance(st, ast.Raise):
@@ -248,7 +296,7 @@ class Translator:
                 return r[1]
             if e.id in ("True", "False", "None"):
                 return {"True": True, "False": False, "None": None}[e.id]
-            if e.id in ("float", "int", "str", "bool", "list", "tuple", "dict"):
+            if e.id in ("float", "int", "str", "bool", "list", "tuple", "dict", "len", "abs", "max", "min", "sum", "range"):
                 return ("builtin", e.id)
             d = self.resolve_dotted(e, env)
             if d in CONSTANTS:
@@ -295,6 +343,10 @@ class Translator:
                 if k not in v:
                     self.err(e, f"key {k!r} not in the symbolic dictionary")
                 return v[k]
+            if isinstance(v, ArraySym):
+                if isinstance(e.slice, ast.Slice):
+                    return ("slice", v, tuple(None if x is None else self.expr(x, env, ctx) for x in (e.slice.lower, e.slice.upper, e.slice.step)))
+                return v[self.expr(e.slice, env, ctx)]
             if isinstance(v, Quad):
                 idx = self.expr(e.slice, env, ctx)
                 return Quad(v.integrand, v.var, v.lo, v.hi, index=int(idx))
@@ -316,6 +368,8 @@ class Translator:
             l = self.expr(e.left, env, ctx)
             r = self.expr(e.comparators[0], env, ctx)
             op = e.ops[0]
+            if isinstance(l, ArraySym) or isinstance(r, ArraySym):
+                return ("mask", type(op).__name__, l, r)
             if not isinstance(l, sp.Basic) and not isinstance(r, sp.Basic):
                 return {ast.Eq: l == r, ast.NotEq: l != r, ast.Is: l is r, ast.IsNot: l is not r,
                         ast.In: (l in r) if isinstance(op, ast.In) else None,
@@ -390,6 +444,8 @@ class Translator:
                 self.depth -= 1
         if isinstance(fv, tuple):
             kind = fv[0]
+            if kind == "method" and fv[1] in ctx.stubs:
+                return ctx.stubs[fv[1]](args, kwargs)
             if kind == "method":
                 self.depth += 1
                 try:
@@ -405,6 +461,8 @@ class Translator:
                 return self.ext_call(fv[1], args, kwargs, e, env, ctx)
             if kind == "attr":
                 base, attr = fv[1], fv[2]
+                if isinstance(base, ArraySym) and attr in ("max", "min", "sum", "mean"):
+                    return sp.Function(attr, real=True)(sp.Symbol(base.name))
                 if attr in ("any", "all", "copy", "astype", "flatten", "item"):
                     return base
                 if isinstance(base, sp.Basic) and attr in NUMPY_FUNCS:
@@ -413,6 +471,8 @@ class Translator:
         if isinstance(f, ast.Name) and f.id in ("float", "int", "abs", "max", "min", "len", "sum", "range"):
             if f.id in ("float", "int"):
                 return args[0]
+            if f.id == "len" and args and isinstance(args[0], ArraySym):
+                return self.sym(f"len_{args[0].name}", integer=True, positive=True)
             if f.id == "abs":
                 return sp.Abs(args[0])
             if f.id == "max":
@@ -429,6 +489,11 @@ class Translator:
             return SPECIAL[name](*args)
         if dotted == "numpy.nan_to_num":
             return args[0]
+        if dotted in ("numpy.sum", "numpy.count_nonzero") and args and isinstance(args[0], tuple) and args[0][0] == "mask":
+            n = self.sym("n_count", integer=True, nonnegative=True)
+            self.definitions = getattr(self, "definitions", {})
+            self.definitions[n] = args[0]
+            return n
         if dotted == "numpy.finfo":
             return Attr("finfo")
         if dotted in ("numpy.zeros_like", "numpy.ones_like", "numpy.zeros", "numpy.ones"):
